@@ -107,6 +107,7 @@ func VerifyUnit(prog *Program, specs *Specs, fn *ssa.Function, ct *Contract, opt
 			tms, _ := x.typeInvTerms(st, pvals[i], p.Type(), pkg, true)
 			st.assumeAll(tms)
 		}
+		x.collectEntryHeld(fr, st)
 		env := x.specEnv(fr, st, nil)
 		if ct != nil {
 			for _, cl := range ct.Requires {
